@@ -120,9 +120,11 @@ Proof. vm_compute. reflexivity. Qed.
 Lemma P2_pos k : 0 < P2 k.
 Proof. unfold P2. apply Z.pow_pos_nonneg; lia. Qed.
 
+(** P2 is the power of two on non-negative exponents *)
 Lemma P2_nonneg k : 0 <= k -> P2 k = 2 ^ k.
 Proof. intros. unfold P2. rewrite Z.max_l by lia. reflexivity. Qed.
 
+(** P2 is 1 on non-positive exponents *)
 Lemma P2_nonpos k : k <= 0 -> P2 k = 1.
 Proof. intros. unfold P2. rewrite Z.max_r by lia. reflexivity. Qed.
 
@@ -139,6 +141,7 @@ Proof.
   rewrite ?Z.mul_1_l, ?Z.mul_1_r; rewrite <- ?Z.pow_add_r by lia; try reflexivity; try (f_equal; lia); try lia.
 Qed.
 
+(** 2^(k+1) = 2 * 2^k in fraction form *)
 Lemma P2_succ k : P2 (k + 1) * P2 (- k) = 2 * P2 k * P2 (- (k + 1)).
 Proof.
   pose proof (P2_add k 1) as H. change (P2 (- (1))) with 1 in H. change (P2 1) with 2 in H. lia.
@@ -155,6 +158,7 @@ Proof.
   assert (1 <= P2 (b - a)) by lia. nia.
 Qed.
 
+(** strict version: a < b gives 2 * 2^a <= 2^b *)
 Lemma P2_mono_strict a b : a < b -> 2 * P2 a * P2 (- b) <= P2 b * P2 (- a).
 Proof.
   intros Hab. pose proof (P2_mono (a + 1) b ltac:(lia)) as H.
@@ -170,6 +174,7 @@ Qed.
 Definition is_ilog2 (num den e : Z) : Prop :=
   den * P2 e <= num * P2 (- e) < 2 * den * P2 e.
 
+(** ilog2 computes the binary order of magnitude *)
 Lemma ilog2_spec num den : 0 < num -> 0 < den -> is_ilog2 num den (ilog2 num den).
 Proof.
   intros Hn Hd. unfold is_ilog2, ilog2, scale2. cbn [fst snd].
@@ -205,6 +210,7 @@ Proof.
       rewrite Hs in K3. nia.
 Qed.
 
+(** the binary order of magnitude is unique *)
 Lemma ilog2_unique num den e1 e2 :
   0 < num -> 0 < den -> is_ilog2 num den e1 -> is_ilog2 num den e2 -> e1 = e2.
 Proof.
@@ -230,6 +236,7 @@ Qed.
 Definition is_rne (n d m : Z) : Prop :=
   2 * Z.abs (m * d - n) < d \/ (2 * Z.abs (m * d - n) = d /\ Z.even m = true).
 
+(** rne_div returns a nearest integer, even on a tie *)
 Lemma rne_div_spec n d : 0 < d -> is_rne n d (rne_div n d).
 Proof.
   intros Hd. unfold is_rne, rne_div.
@@ -242,6 +249,7 @@ Proof.
   - right. split; [lia|]. rewrite Z.even_add, Ev. reflexivity.
 Qed.
 
+(** the nearest-even integer is unique *)
 Lemma is_rne_unique n d m1 m2 : 0 < d -> is_rne n d m1 -> is_rne n d m2 -> m1 = m2.
 Proof.
   intros Hd H1 H2. unfold is_rne in *.
@@ -254,12 +262,15 @@ Proof.
     rewrite Z.even_add, E2 in E1. discriminate.
 Qed.
 
+(** introduction rule for rne_div *)
 Lemma rne_div_unique n d m : 0 < d -> is_rne n d m -> rne_div n d = m.
 Proof. intros Hd H. eapply is_rne_unique; eauto using rne_div_spec. Qed.
 
+(** integers are fixed points of rne_div *)
 Lemma rne_div_exact m d : 0 < d -> rne_div (m * d) d = m.
 Proof. intros. apply rne_div_unique; [lia|]. left. replace (m * d - m * d) with 0 by lia. simpl. lia. Qed.
 
+(** rne_div is monotone in the numerator *)
 Lemma rne_div_mono n1 n2 d : 0 < d -> n1 <= n2 -> rne_div n1 d <= rne_div n2 d.
 Proof.
   intros Hd Hn. pose proof (rne_div_spec n1 d Hd) as H1. pose proof (rne_div_spec n2 d Hd) as H2.
@@ -271,6 +282,7 @@ Proof.
   rewrite Z.even_add, E2 in E1. discriminate.
 Qed.
 
+(** rne_div depends on the fraction only (common factor) *)
 Lemma rne_div_scale n d c : 0 < d -> 0 < c -> rne_div (n * c) (d * c) = rne_div n d.
 Proof.
   intros Hd Hc. apply rne_div_unique; [nia|].
@@ -288,6 +300,7 @@ Proof.
   rewrite E. f_equal. ring.
 Qed.
 
+(** integer bounds on the fraction carry over to rne_div *)
 Lemma rne_div_bounds n d a b : 0 < d -> a * d <= n <= b * d -> a <= rne_div n d <= b.
 Proof.
   intros Hd [Ha Hb]. split.
@@ -298,8 +311,10 @@ Qed.
 (** ** round_pos *)
 
 Lemma two52_eq : two52 = 2 ^ 52. Proof. reflexivity. Qed.
+(** 2^53 = 2 * 2^52 *)
 Lemma two53_eq : two53 = 2 * two52. Proof. reflexivity. Qed.
 
+(** the clamped binade is at least -1022 *)
 Lemma binade_ge num den : -1022 <= binade num den.
 Proof. unfold binade. lia. Qed.
 
@@ -353,6 +368,7 @@ Proof.
     split; [|split; [lia|intros _]]; nia.
 Qed.
 
+(** round_pos as (binade, mantissa) with the range of the mantissa in the normal and subnormal cases *)
 Lemma round_pos_mant num den :
   0 < num -> 0 < den ->
   let e := ilog2 num den in let E := binade num den in
@@ -461,6 +477,7 @@ Proof.
   nia.
 Qed.
 
+(** round_pos is monotone in the fraction *)
 Lemma round_pos_mono n1 d1 n2 d2 :
   0 < n1 -> 0 < d1 -> 0 < n2 -> 0 < d2 -> n1 * d2 <= n2 * d1 -> round_pos n1 d1 <= round_pos n2 d2.
 Proof.
@@ -569,6 +586,7 @@ Proof.
   assert (0 < 2 ^ (b / two52 - 1)) by (apply Z.pow_pos_nonneg; lia). nia.
 Qed.
 
+(** every positive pattern is the rounding of its own value (exactly representable values are fixed points) *)
 Theorem round_pos_ival b : 0 < b -> round_pos (ival b) (2 ^ 1074) = b.
 Proof.
   intros Hb. assert (T : 0 < two52) by (unfold two52; lia).
